@@ -280,3 +280,8 @@ def units(tier, seed):
     us.append(unit_pair_l2sq())
     us.append(unit_canary())
     return us
+
+
+def replay(ob):
+    from contracts import replay_c08
+    return replay_c08.replay(ob)
